@@ -185,8 +185,34 @@ def run(tier, seed):
             res.violations.append({"clause": "window-bound", "signature": "C10:window",
                                    "case": {"capacity": cap, "refill_rate": str(rate), "events": [[str(x) for x in e] for e in ev]},
                                    "trace": {"decisions": dec_}})
+    toml_values_cases(res)
+    res.rule += " | plus [rate_limit] sections with boundary values (0, 1, fractions) loaded through ServerConfig.from_toml: the limiter's configuration is the numbers written"
     # through the command line: generated configurations whose [rate_limit] section has capacity 2 / 500 / default / disabled
     import livetls
     livetls.run_config_matrix(res, tier, "C10", seed)
     res.rule += " | plus the CLI: serve --config with generated [rate_limit] sections (capacity 2 with retry_after 7, 500, default, disabled), 6 valid requests and one over-long line from 127.0.0.1"
     return res
+
+
+def toml_values_cases(res):
+    """ "the configured retry hint", "capacity + refill_rate x T": the numbers the limiter runs with are the numbers written in the
+    configuration file - also when a number is 0 (a budget that is never refilled, an allowance of nothing, no retry hint)."""
+    from pathlib import Path
+    from nauyaca.server.config import ServerConfig
+    tmp = scratch_dir("nv-c10t-")
+    try:
+        for cap, rate, retry in ((2, 0, 7), (0, 1.0, 30), (5, 0.5, 0), (1, 0.0, 0), (10, 1.0, 30), (3, 2, 1), (0, 0, 0)):
+            cf = os.path.join(tmp, "rl.toml")
+            open(cf, "w").write('[server]\ndocument_root = "%s"\n\n[rate_limit]\ncapacity = %r\nrefill_rate = %r\nretry_after = %r\n' % (tmp, cap, rate, retry))
+            res.evaluations += 1; res.count("toml-values"); res.nontriv(("toml-values", cap, rate, retry))
+            try:
+                rc = ServerConfig.from_toml(Path(cf)).get_rate_limit_config()
+                got = (rc.capacity, float(rc.refill_rate), rc.retry_after)
+            except Exception as e:
+                got = ("raise", type(e).__name__, str(e)[:80])
+            if got != (cap, float(rate), retry):
+                res.violations.append({"clause": "the limiter is configured with the capacity, refill rate and retry hint written in the configuration file", "signature": "C10:toml-values",
+                                       "case": {"rate_limit_section": {"capacity": cap, "refill_rate": rate, "retry_after": retry}},
+                                       "trace": {"configuration_handed_to_the_limiter": [str(x) for x in got]}})
+    finally:
+        shutil.rmtree(tmp, ignore_errors=True)
